@@ -187,3 +187,43 @@ Definition cache_run (cf : cconf) (cb : nat -> gostring -> gostring -> list cop)
 (* scripted callback for the correspondence: the i-th invocation performs script[i] *)
 Definition scripted_cb (script : list (list cop)) (n : nat) (_ _ : gostring) : list cop :=
   nth n script [].
+
+(* ------------------------------------------------------------------ *)
+(* Concurrent use (C10): any number of goroutines, each with its own stack of
+   remaining work (its calls, and the callbacks it is inside of), sharing the
+   state.  A schedule is any sequence of goroutine numbers; one scheduled step
+   is one atomic section of that goroutine.  The atomicity of the sections is
+   what the lock-discipline theorem about the regenerated skeletons justifies. *)
+
+Record cms : Type := mk_cms {
+  cm_st : cstate;
+  cm_threads : list (list ctask);
+  cm_calls : nat;
+  cm_trace : list (nat * cev)      (* (goroutine, event), newest first *)
+}.
+
+Fixpoint set_thread (i : nat) (s : list ctask) (ts : list (list ctask)) : list (list ctask) :=
+  match ts, i with
+  | [], _ => []
+  | _ :: t, O => s :: t
+  | h :: t, S i' => h :: set_thread i' s t
+  end.
+
+Definition cstep (cf : cconf) (cb : nat -> gostring -> gostring -> list cop) (tid : nat) (c : cms) : M cms :=
+  match nth_error (cm_threads c) tid with
+  | None => Ret c
+  | Some [] => Ret c
+  | Some stack =>
+      do ms' <- step cf cb (mk_mstate (cm_st c) stack (cm_calls c) []);
+      Ret (mk_cms (ms_st ms') (set_thread tid (ms_stack ms') (cm_threads c)) (ms_calls ms')
+                  (map (fun e => (tid, e)) (ms_trace ms') ++ cm_trace c))
+  end.
+
+Fixpoint crun (cf : cconf) (cb : nat -> gostring -> gostring -> list cop) (sched : list nat) (c : cms) : M cms :=
+  match sched with
+  | [] => Ret c
+  | tid :: rest => do c' <- cstep cf cb tid c; crun cf cb rest c'
+  end.
+
+Definition cms_init (progs : list (list cop)) : cms :=
+  mk_cms cache_new (map (map TOp) progs) 0 [].
